@@ -338,6 +338,10 @@ def run(cfg, sync_pool=True, record_admm=True, admm_wrapper=None, series=None, e
             admm.admm_optimize_theta = recording
     np.random.seed(cfg["np_seed"])
     random.seed(cfg["py_seed"])
+    # the library's own multiprocessing switch, set by the caller's environment (the stand-in pool stays in place)
+    mp_saved = os.environ.get("CUPCAKE_ENABLE_MULTIPROCESSING")
+    if sync_pool and cfg.get("mp_env"):
+        os.environ["CUPCAKE_ENABLE_MULTIPROCESSING"] = "1"
     try:
         with contextlib.redirect_stdout(io.StringIO()):
             if cfg["front"] == "single":
@@ -352,6 +356,11 @@ def run(cfg, sync_pool=True, record_admm=True, admm_wrapper=None, series=None, e
         _verif.listeners.remove(listener)
         multiprocessing.Pool = saved_pool
         admm.admm_optimize_theta = real_admm
+        if sync_pool and cfg.get("mp_env"):
+            if mp_saved is None:
+                os.environ.pop("CUPCAKE_ENABLE_MULTIPROCESSING", None)
+            else:
+                os.environ["CUPCAKE_ENABLE_MULTIPROCESSING"] = mp_saved
     trace.pools = list(SyncPool.instances) if sync_pool else []
     return trace
 
